@@ -1,5 +1,7 @@
-From SV Require Import Base.ListX Store.Raw Store.RawRefine Store.CleanProps Store.Masked Store.StoreInv Store.DeadHandle
+From SV Require Import Base.ListX Store.Raw Store.RawRefine Store.CleanProps Store.Masked Store.StoreInv Store.Bag Store.Ledger
+  Store.DeadHandle
   World.Env World.WorldSpec World.World World.Simulation World.NoStuck.
+From Coq Require Import Sorting.Permutation.
 From SV Require Import Props.C08.
 Check (C08_never_exposes_an_unwritten_or_moved_out_slot : forall os,
   regs_ok s_init (combine os (snd (wrun true w_init os))) = true ->
@@ -48,3 +50,20 @@ Check (C08_lazy_values_are_applied_or_destroyed : forall e av hs so,
      | WIns (InsOld t) | WOptTok (Some t) => env_cx e' (cx_drop (se_cx e') t)
      | _ => e'
      end)).
+Check (C08_insert_conserves : forall ms m av e v c, LInvS ms m ->
+  let '(ms', r, c') := st_insert ms av e v c in
+  exists m', LInvS ms' m' /\ cx_stuck c' = cx_stuck c /\
+    conserves m m' [fst (tnorm ms v)] (match r with InsOld t => [fst t] | _ => [] end) c c').
+Check (C08_remove_conserves : forall ms m av e c, LInvS ms m ->
+  let '(ms', o, c') := st_remove ms av e c in
+  exists m', LInvS ms' m' /\ cx_stuck c' = cx_stuck c /\
+    conserves m m' [] (match o with Some t => [fst t] | None => [] end) c c').
+Check (C08_get_mut_conserves : forall ms m av e touch nv c, LInvS ms m ->
+  let '(ms', o, c') := st_get_mut ms av e touch nv c in
+  exists m', LInvS ms' m' /\ c' = c /\ Permutation (bag m') (bag m)).
+Check (C08_drain_conserves : forall ids ms m c, LInvS ms m ->
+  let '(ms', l, c') := st_drain_ids ms ids c in
+  exists m', LInvS ms' m' /\ cx_drops c' = cx_drops c /\ Permutation (bag m' ++ map fst l) (bag m)).
+Check (C08_deleting_entities_conserves : forall ids ms m c, LInvS ms m ->
+  let '(ms', c') := m_drop_all ms ids c in
+  cx_stuck c' = cx_stuck c /\ exists m', LInvS ms' m' /\ conserves m m' [] [] c c').
